@@ -2,8 +2,8 @@
 return the exact source line of any position.
 
 1. Lean obligations: lean/PegtlVerif/Props/C19.lean (theorems for every input, every k <= size, the five
-   policies, eager and lazy, any initial line; initial byte 0 / column 1 as far as really needed; witnesses
-   for the known findings F10 and F11).
+   policies, eager and lazy, any initial byte and line counter; initial column 1 as far as really needed; witnesses
+   for the known findings F10 — its column part; the byte part was repaired by fix F19 of at() — and F11).
 2. Correspondence: harness/leaf_c19.cpp (the real memory_input, ASan+UBSan) against lean/DrvC19.lean (the
    model) on every input up to a length bound over {'a', LF, CR} plus seeded random longer inputs, every
    position 0..size obtained by in.bump(k), by parse< bytes< k > > and during a run of
@@ -11,7 +11,7 @@ return the exact source line of any position.
 3. Oracle: an independent Python line splitter evaluated on the implementation's records: at = k,
    begin_of_line = index after the last line-break byte before k, end_of_line = first index >= k where the
    policy's end-of-line sequence starts or the data ends, line_at = exactly [begin, end), every pointer inside
-   [0, size].  Failures that are exactly F10 (non-default initial byte / column) or F11 (eol::cr_crlf, eager,
+   [0, size].  Failures that are exactly F10 (initial column != 1, first line) or F11 (eol::cr_crlf, eager,
    CR LF consumed by `eol`) are reported as KNOWN-FINDING; anything else is a VIOLATION with a replay file.
 """
 from __future__ import annotations
@@ -35,7 +35,7 @@ WORKERS = 4
 
 DEFAULT_INIT = (0, 1, 1)
 LINE_ONLY = (0, 7, 1)                    # the property must hold: theorems need byte 0 and column 1 only
-F10_INITS = [(0, 1, 4), (2, 1, 3), (3, 2, 5), (10, 1, 1)]   # byte and/or column non-default: finding F10
+F10_INITS = [(0, 1, 4), (2, 1, 3), (3, 2, 5), (10, 1, 1)]   # byte and/or column non-default (column: finding F10; byte: repaired by F19)
 
 Case = Tuple[str, int, Tuple[int, int, int], bytes]
 
@@ -148,18 +148,12 @@ def judge(case: Case, r: Dict[str, Any]) -> Tuple[List[str], Optional[str], Dict
     # ---- is it exactly a known finding?
     first_line = (b == 0)
     known = None
-    if ib != 0 or (ic != 1 and first_line):
-        # F10: at( p ) = begin() + p.byte ignores the initial byte; begin_of_line = at - (column - 1)
-        # subtracts the initial column on the first line.  Everything else must follow from these two.
-        ok = (r['at'] == ib + k and r['bol'] == r['at'] - (r['col'] - 1) and r['byte'] == ib + k
+    if ic != 1 and first_line:
+        # F10 (what is left of it after fix F19 of at()): begin_of_line = at - (column - 1) subtracts the initial column on the
+        # first line.  at() and end_of_line() must be right; line_at() must follow from the wrong begin.
+        ok = (r['at'] == k and r['bol'] == r['at'] - (r['col'] - 1) and r['byte'] == ib + k and r['eol'] == e
+              and r['lb'] == r['bol'] and r['ll'] == r['eol'] - r['bol']
               and not any(f.startswith('cursor') for f in fails))
-        if ok:
-            if 0 <= r['at'] <= n:
-                ok = (r['eol'] == spec_end(policy, data, r['at']) and r['lb'] == r['bol'] and r['ll'] == r['eol'] - r['bol'])
-            else:
-                ok = r['eol'] is None
-        if ok and ib == 0:
-            ok = (r['at'] == k and r['eol'] == e)      # only the first-line begin is affected
         if ok:
             known = 'F10'
     elif (policy == 'cr_crlf' and lazy == 0 and r['mode'] == 'T' and b >= 1 and b < k
@@ -213,7 +207,7 @@ def judge_chunk(chunk: List[Tuple[Case, str]]) -> Dict[str, Any]:
             elif known:
                 st['known'][known] += 1
                 cur = st['known_samples'].get(known)
-                if cur is None or (known == 'F10' and r['eol'] is None and not cur['record'].endswith('x:x:x')):
+                if cur is None:
                     st['known_samples'][known] = {'case': case_json(case), 'record': rec, 'fails': fails, 'expected': exp}
             else:
                 if len(st['bad']) < 20:
@@ -431,7 +425,7 @@ def report(verdict: common.Verdict, info: Dict[str, Any]):
     for fid, cnt in tot['known'].items():
         s = tot['known_samples'][fid]
         if fid == 'F10':
-            verdict.known('F10', f"F10 memory_input::at/begin_of_line with non-default initial byte/column: {cnt} positions; e.g. "
+            verdict.known('F10', f"F10 memory_input::begin_of_line / line_at on the first line of an input constructed with initial column != 1: {cnt} positions; e.g. "
                                  f"{json.dumps(s['case'])} record {s['record']}: {s['fails'][0]}")
         else:
             verdict.known('F11', f"F11 eol::cr_crlf eager: begin_of_line/line_at after `eol` consumed CR LF starts after the LF, "
